@@ -757,6 +757,40 @@ def gen_history(rng, names, files, length, style):
     return args, cmds
 
 
+def gen_quit16(rng, names, files):
+    """Exactly 16 buffers, exactly one of them dirty, sitting at a chosen most-recently-used position (half of the time the
+    last slot, 15): `q` must refuse and switch to it (the walk of ec_quit covers all 16 slots); after `u` it quits."""
+    args = list(names)
+    sp = Spec(files, args)
+    cmds = []
+
+    def push(c):
+        cmds.append(c)
+        sp.do(c)
+
+    push(('wa', 1))
+    order = list(names)
+    rng.shuffle(order)
+    for nm in order:
+        push(('e', rng.below(2), 0, 'lit', nm))
+    ids = list(sp.mru)
+    d = rng.choice(ids)
+    pos = len(ids) - 1 if rng.chance(1, 2) else rng.below(len(ids))
+    push(('bi', d))
+    push(('oa', None, ['dirty+%d' % d]))
+    others = [i for i in ids if i != d]
+    rng.shuffle(others)
+    for o in others[:pos]:
+        push(rng.choice([('bi', o), ('e', 1, 0, 'lit', sp.bufs[o].path)]))
+    push(('wa', 0))
+    push(('q', 0))
+    push(('ou',))
+    if rng.chance(1, 2):
+        push(('b-',) if rng.chance(1, 2) else ('b+',))
+    push(('q', 0))
+    return args, cmds
+
+
 # ---------------------------------------------------------------------------------------------
 # vi-mode programs for the shortcuts: ^^ (e #), zj/zk (b +/-), zJ/zK (next/prev), zD (b !)
 
@@ -960,13 +994,19 @@ def run(ctx):
         for i in range(nh):
             r = rng.fork('h%d' % i)
             style = ['mixed', 'mixed', 'wa', 'full16', 'few'][i % 5]
-            if style == 'full16':
+            if i % 10 == 9:
+                style = 'quit16'
+            if style in ('full16', 'quit16'):
                 nf = 16
             elif style == 'few':
                 nf = r.range(2, 3)
             else:
                 nf = r.choice([2, 3, 4, 5, 8, 15, 16])
             names, files = gen_files(r, nf, missing=r.choice([0, 0, 1]))
+            if style == 'quit16':
+                args, cmds = gen_quit16(r, names, files)
+                hists.append((style, files, args, cmds))
+                continue
             args, cmds = gen_history(r, names, files, r.choice([12, 25, 40]) if ctx.quick else r.choice([12, 25, 40, 80]), style)
             hists.append((style, files, args, cmds))
 
